@@ -373,8 +373,8 @@ func Search(seq Sequence, query Sequence) []Segment {
 		return nil
 	}
 
-	s := bytes.ToLower(seq.Bytes())
-	sep := bytes.ToLower(query.Bytes())
+	s := lowerBytes(seq.Bytes())
+	sep := lowerBytes(query.Bytes())
 
 	indices := bytesIndexAll(s, sep)
 	segments := make([]Segment, len(indices))
